@@ -21,6 +21,8 @@ struct Sys : public SQuIDS {
 };
 static void mkh0(SU_vector& h, unsigned d, const double* h0){ for(unsigned k=0;k<d*d;k++) h[k]=h0[k]; }
 // which: 0 GetExpectationValue(op,irho,ix)   1 averaging overload (scale, flags)
+//        2 / 3: the configured solver is first move-assigned into an object initialised for another problem (other t_ini, other shape) / move-constructed from;
+//        the query goes to the destination, which must carry the source's t, t_ini, grid and states
 extern "C" int h_expect(unsigned which, unsigned nx, unsigned d, unsigned nrho, unsigned ix, unsigned irho, double* xs, double* st, double* op, double t, double t_ini, double scale, double* out, unsigned* flags){
   try{
     Sys s(nx,d,nrho,t_ini);
@@ -28,6 +30,8 @@ extern "C" int h_expect(unsigned which, unsigned nx, unsigned d, unsigned nrho, 
     s.load(st); s.set_time(t);
     SU_vector O(d,op);
     if(which==0) out[0]=s.GetExpectationValue(O,irho,ix);
+    else if(which==2){ Sys q(2,d,1,0.0); q=std::move(s); out[0]=q.GetExpectationValue(O,irho,ix); }
+    else if(which==3){ Sys q(std::move(s)); out[0]=q.GetExpectationValue(O,irho,ix); }
     else{ std::vector<bool> avr(d*(d-1)/2); out[0]=s.GetExpectationValue(O,irho,ix,scale,avr); for(unsigned i=0;i<avr.size();i++) flags[i]=avr[i]?1u:0u; }
     return 0;
   }catch(...){ return 1; }
